@@ -906,7 +906,13 @@ func (c *Ctx) sliceFns() (sl, cp *ssa.Function) {
 			continue
 		}
 		if isIfaceSlice(sg.Params().At(0).Type()) && isIfaceSlice(sg.Results().At(0).Type()) && isErrorType(sg.Results().At(1).Type()) {
-			if len(callsTo(c.A.Exec, fn)) > 0 {
+			used := len(callsTo(c.A.Exec, fn)) > 0
+			for _, h := range c.A.Helpers {
+				if len(callsTo(h, fn)) > 0 {
+					used = true
+				}
+			}
+			if used {
 				cands = append(cands, fn)
 			}
 		}
